@@ -17,6 +17,11 @@ def run_client_scenario(plan, sched_values=None, sched_seed=0):
     tape = Tape(seed=sched_seed, values=sched_values)
     k = K.Kernel(tape, horizon=plan.get('horizon', 60.0),
                  step_cap=plan.get('step_cap', 200000))
+    k.fixed_latency = plan.get('fixed_latency')
+    if plan.get('line'):
+        import engineio as _e
+        import os as _os
+        k.enable_lines(plan['line'], (_os.path.dirname(_e.__file__) + '/',))
     ss = ScriptedServerWorld(k, plan.get('sserver', {}))
     cspec = plan['client']
     cw = make_client_world(cspec.get('kind', 'threaded'), ss, 0, cspec)
